@@ -124,8 +124,8 @@ func rm2SourceInfoModeConfinement(w *World) {
 	}
 	info := p.TypesInfo
 	allowed := map[string]string{
-		"protocompile.(*task).link":      "common path of all input forms",
-		"protocompile.needsSourceInfo":   "helper of task.link, receives the mode as a parameter",
+		"protocompile.(*task).link":        "common path of all input forms",
+		"protocompile.needsSourceInfo":     "helper of task.link, receives the mode as a parameter",
 		"protocompile.(*Compiler).Compile": "configuration plumbing before any file is looked at",
 	}
 	n := 0
@@ -185,10 +185,11 @@ func rm2SourceInfoModeConfinement(w *World) {
 // RQ9 (C13): column arithmetic of FileInfo.SourcePos. "The column is one plus the number of
 // characters since the line start, a tab advancing to the next multiple of eight": every update of
 // the column accumulator in SourcePos must be
-//   * a unit step (col++ / col += 1) taken under a test that identifies a character start
+//   - a unit step (col++ / col += 1) taken under a test that identifies a character start
 //     (utf8.RuneStart, or a range over a string / utf8.DecodeRune loop), or
-//   * a tab step whose new value, *evaluated* for col = 0..63 (and any character-count operand
+//   - a tab step whose new value, *evaluated* for col = 0..63 (and any character-count operand
 //     0..9), is the next multiple of eight after col(+count).
+//
 // Operands of an update are classified by their origin: the accumulator itself, constants,
 // character counts (utf8.RuneCount*), or byte distances (len, bytes/strings.Index*, differences of
 // offsets); a byte distance in a column update is a violation (multi-byte characters before a tab
